@@ -354,6 +354,8 @@ func (lex *Lexer) Lex() *token.Token {
 		switch lex.data[(lex.p)] {
 		case 10:
 			goto tr5
+		case 255:
+			goto tr6 // bad (byte-siblings): the comment ends in front of the byte 0xFF
 		}
 		if lex.isNotCommentEnd() {
 			goto st6
